@@ -1791,9 +1791,10 @@ def as_uninitialized(fn):
         parameterized_instance = self_.self
         original_initialized = parameterized_instance._param__private.initialized
         parameterized_instance._param__private.initialized = False
-        ret = fn(self_, *args, **kw)
-        parameterized_instance._param__private.initialized = original_initialized
-        return ret
+        try:
+            return fn(self_, *args, **kw)
+        finally:
+            parameterized_instance._param__private.initialized = original_initialized
     return override_initialization
 
 
@@ -5181,10 +5182,11 @@ class Parameterized(metaclass=ParameterizedMetaclass):
         # has overriden the default of the `name` Parameter.
         if self.param.name.default == self.__class__.__name__:
             self.param._generate_name()
-        refs, deps = self.param._setup_params(**params)
+        try:
+            refs, deps = self.param._setup_params(**params)
+        finally:
+            self._param__private.initialized = True
         object_count += 1
-
-        self._param__private.initialized = True
 
         self.param._setup_refs(deps)
         self.param._update_deps(init=True)
